@@ -54,7 +54,7 @@ CHECKS.update({
         note='Arbitrary Unicode cannot be enumerated by TLC; it is sampled and only classified. Bounded lengths.',
         technique='TLC enumeration of token sequences + stateful trace validation (T_C07)', design='5/C07'),
     'C02': dict(
-        text='TLC enumerates the shape space of HplShapes (every scope kind x pattern kind x alias/reference placement over aliases {none,A,B} for all-simple events - 5880 shapes, exhaustive - plus references inside quantifier bodies and domains, quantifier-hygiene faults, disjunctions with sibling references, shared aliases and duplicate channels); every shape is brought into being four ways (parsed, built through the constructor API from the tree the grammar assigns, reached by but() from a valid property, built from predicates that were derived by the substitution API from predicates already used inside another valid property) and T_C02 compares accept/reject and the error class with HplScoping!Accept.',
+        text='TLC enumerates the shape space of HplShapes (every scope kind x pattern kind x alias/reference placement over aliases {none,A,B} for all-simple events - 5880 shapes, exhaustive - plus references inside quantifier bodies and domains, quantifier-hygiene faults, disjunctions with sibling references, shared aliases and duplicate channels); every shape is brought into being four ways (parsed, built through the constructor API from the tree the grammar assigns, reached by but() from a valid property, built from predicates that were derived by the substitution API from predicates already used inside another valid property) and T_C02 compares accept/reject and the error class with HplScoping!Accept. A model-level theorem ties the rule to the trace semantics: on every trace of the message-bus machine (HplMonitor) up to a length bound, a sampled shape that Accept admits is never evaluated with an unbound alias (invariant BindingSufficient), and shapes rejected for an unbound or late reference are (must-fail instance).',
         note='Two shape classes are deliberately not judged (same alias on two alternatives of one disjunction; terminator alias equal to a pattern alias) and are counted in the evidence.',
         technique='TLC enumeration of property shapes (MC_Shapes) + trace validation against HplScoping (T_C02)', design='5/C02'),
     'C11': dict(
